@@ -19,7 +19,8 @@ RULE = ("cases = (a) plans given to the real FirewallClient (0-40 subnets per fa
         "texts, all widths, port ranges, 0-5 name servers, ports {0,1,65535,...}, user/group {None, 0, "
         "4294967294, ...}, tmark, occasionally a non-ASCII text) whose written bytes go through the real helper; "
         "(b) HOST updates over the allowed alphabet with lengths {1,63,100,106,107,120,121,122,253}, and update "
-        "histories per name on one client object (A,B,A; A,A; A,B,B,A; names interleaved); (c) every "
+        "histories per name on one client object (A,B,A; A,A; A,B,B,A; names interleaved); (b2) a failed or ended "
+        "stdin read at every read index, also between the 128-byte pieces of long HOST lines (names 100-130, 250+); (c) every "
         "truncation point of rendered dialogues (after each line and inside lines); (d) malformed dialogues "
         "(field deleted/duplicated, signs, underscores, white space of every kind, non-ASCII bytes, over-long "
         "lines, wrong keywords, unknown commands). Non-trivial = the helper got past the first line; distinct = "
@@ -37,7 +38,12 @@ MANIFEST = dict(
     level_note=("Trusted: Lean kernel; axioms propext/Classical.choice/Quot.sound only; the correspondence harness; "
                 "the socketpair between client and helper (reliable ordered bytes, readline(n) semantics of a buffered "
                 "binary stream); CPython int()/strip()/split() as modelled for ASCII text. Host names longer than the "
-                "helper's 128-byte read hold for the repaired helper (fix commit 80ba208)."),
+                "helper's 128-byte read hold for the repaired helper (fix commit 80ba208). "
+                "Read faults are not part of the Lean stream model: the harness maps a failed stdin read at read index k to "
+                "the stream cut at the preceding line boundary (the reader's try/except encloses the re-joining loop and "
+                "returns None: pinned as READ_ERROR_DROPS_LINE) and an end of input to the stream cut at that byte; what the "
+                "reader does with an unfinished last line is the regenerated flag HELPER_DROPS_UNFINISHED_LINE "
+                "(C13_unfinished_line holds for both values; the current code keeps it: known finding)."),
     technique="Lean 4 proof (render/parse round trip by induction over the entry lists) + differential correspondence",
 )
 DRIVER_TARGETS = ['SshuttleModel.Code.FwDialogue']
@@ -189,7 +195,7 @@ def err_tag(e, helpers):
 class Run:
     """One run of the real firewall.main over a byte stream."""
 
-    def __init__(self, stream):
+    def __init__(self, stream, stdin=None):
         import sshuttle.firewall as firewall
         import sshuttle.helpers as helpers
         from sshuttle.methods import BaseMethod
@@ -221,7 +227,7 @@ class Run:
         saved = (firewall.setup_daemon, firewall.get_method, firewall.rewrite_etc_hosts,
                  firewall.flush_systemd_dns_cache, firewall.sshuttle_pid, helpers.logprefix, sys.stderr,
                  helpers.verbose)
-        firewall.setup_daemon = lambda: (io.BytesIO(stream), Out())
+        firewall.setup_daemon = lambda: (stdin if stdin is not None else io.BytesIO(stream), Out())
         firewall.get_method = lambda name: Method('rec')
         firewall.rewrite_etc_hosts = lambda hostmap, port: run.maps.append((list(hostmap.items()), port))
         firewall.flush_systemd_dns_cache = lambda: None
@@ -484,6 +490,91 @@ def check_plan(ctx, plan, hosts, logs, cuts):
             ctx.hist('trunc:' + ('setup' if r2.calls else (r2.error or 'noInput')))
 
 
+class FaultyStdin:
+    """The helper's stdin with one fault: read number `at` (0-based, counting every readline call,
+    also the 128-byte pieces of a long line) fails with ConnectionResetError / EIO, or reports end of
+    input; every later read reports end of input."""
+
+    def __init__(self, data, at, kind):
+        self.b = io.BytesIO(data)
+        self.data, self.at, self.kind = data, at, kind
+        self.reads = 0
+        self.fault_pos = None
+
+    def readline(self, n=-1):
+        i = self.reads
+        self.reads += 1
+        if self.fault_pos is not None:
+            return b''
+        if i == self.at:
+            self.fault_pos = self.b.tell()
+            if self.kind == 'reset':
+                raise ConnectionResetError(104, 'Connection reset by peer')
+            if self.kind == 'eio':
+                raise OSError(5, 'Input/output error')
+            return b''
+        return self.b.readline(n)
+
+    def equivalent_stream(self):
+        """What the helper may act on: end of input leaves the bytes read so far; a failed read also
+        discards the pieces of the line it was reading (the property: a half-received line is not a line)."""
+        if self.fault_pos is None:
+            return self.data
+        if self.kind == 'eof':
+            return self.data[:self.fault_pos]
+        return self.data[:self.data.rfind(b'\n', 0, self.fault_pos) + 1]
+
+
+def check_faults(ctx, plan, hosts, logs, only=None):
+    """Read faults at EVERY read index of the helper's stdin (also between the 128-byte pieces of long
+    lines).  Oracle: every entry of every host map the helper acted on is one the client announced,
+    verbatim; set-up happens only with the complete plan."""
+    case0 = dict(stream='fault', plan=plan, hosts=[(hexb(n), hexb(i)) for n, i in hosts])
+    try:
+        ses = Session()
+        kind, data = ses.start(plan)
+        stream = data
+        announced = set()
+        for name, ip in hosts:
+            k, line = ses.sethostip(name, ip)
+            if k == 'ok':
+                stream += line
+                announced.add((name.decode(), ip.decode()))
+    except Exception as e:  # noqa
+        ctx.violation('C13:client:exception:' + type(e).__name__, case=case0, expected='client writes the dialogue',
+                      observed=repr(e)[:300])
+        return
+    if kind != 'ok':
+        return
+    exp_n = norm_calls(expected_calls(plan))
+    probe = FaultyStdin(stream, -1, 'eof')
+    Run(stream, stdin=probe)
+    total = probe.reads
+    todo = [(at, kd) for at in range(total) for kd in ('eof', 'reset', 'eio')] if only is None else [only]
+    for at, kd in todo:
+        fs = FaultyStdin(stream, at, kd)
+        r = Run(stream, stdin=fs)
+        logs.append(Case('fault', ['helper ' + hexb(fs.equivalent_stream())], [r.canon()]))
+        ctx.hist('fault:%s:%s' % (kd, 'ran' if r.started else 'before'))
+        case = dict(case0, at=at, kind=kd)
+        if r.error and r.error.startswith('other:'):
+            ctx.violation('C13:fault:helper-exception:' + r.error, case=case,
+                          expected='a failed read ends the helper through its clean-up path', observed=r.error)
+            continue
+        if r.calls and norm_calls(r.calls) != exp_n:
+            ctx.violation('C13:truncation:setup-with-partial-plan', case=case,
+                          expected='no setup_firewall, or setup_firewall with the complete plan',
+                          observed=dict(calls=[show_call(x) for x in r.calls]))
+            continue
+        bad = [(n, i) for m, _p in r.maps for n, i in m if (n, i) not in announced]
+        if bad:
+            ctx.violation('C13:fault:half-line-acted-on:' + ('eof' if kd == 'eof' else 'ioerror'), case=case,
+                          expected='every host-map entry is a pair the client announced, verbatim',
+                          observed=dict(entry=[bad[0][0][:40] + ('...' if len(bad[0][0]) > 40 else ''), bad[0][1]],
+                                        read_index=at, fault=kd),
+                          note='the helper put a half-received HOST line into its host map (and the hosts file)')
+
+
 def line_cuts(data):
     out = [0]
     for i, b in enumerate(data):
@@ -560,6 +651,10 @@ def gen_cases(ctx):
         for ip in [b'1.2.3.4', b'255.255.255.255']:
             check_plan(ctx, base, [(b'a.example', b'10.0.0.1'), (rand_name(rng, n), ip), (b'a.example', b'10.0.0.2')],
                        logs, lambda d: [])
+    # stdin read faults at every read index, long HOST lines with the comma before and after byte 128
+    for n in ([100, 107, 115, 122, 123, 130, 250, 253] if not ctx.thorough else list(range(100, 131)) + [250, 253, 300]):
+        check_faults(ctx, base, [(b'a.example', b'10.0.0.1'), (rand_name(rng, n), b'192.168.100.200'),
+                                 (b'b.example', b'10.0.0.2')], logs)
     # update histories per name on one client object (last announced value must win)
     A, B, C = b'10.0.0.1', b'10.0.0.2', b'10.0.0.3'
     for hist in [[(b'h', A), (b'h', B), (b'h', A)], [(b'h', A), (b'h', A)], [(b'h', A), (b'h', B), (b'h', B), (b'h', A)],
@@ -658,7 +753,9 @@ def replay(ctx, rep):
                 auto=[tuple(x) for x in plan['auto']], ns=[tuple(x) for x in plan['ns']])
     hosts = [(common.unhex(n), common.unhex(i)) for n, i in case.get('hosts', [])]
     c2 = common.Ctx('C13', 'quick', 0)
-    if 'cut' in case:
+    if case.get('stream') == 'fault':
+        check_faults(c2, plan, hosts, [], only=(case['at'], case['kind']))
+    elif 'cut' in case:
         check_plan(c2, plan, [], [], lambda d: [case['cut']])
     else:
         check_plan(c2, plan, hosts, [], lambda d: [])
